@@ -1,6 +1,7 @@
 package main
 
 import (
+	"syscall"
 	"bytes"
 	"context"
 	"fmt"
@@ -10,8 +11,10 @@ import (
 	"time"
 )
 
-// wall-clock backstop = CPU budget * wallFactor
-const wallFactor = 6
+// wall-clock backstop = CPU budget * wallFactor. The budget that decides a verdict is CPU time; the wall clock
+// only stops a solver that is starved or hung, so the factor is generous (a machine loaded 10x must not
+// change a verdict).
+const wallFactor = 40
 
 type solverSpec struct {
 	name string
@@ -63,6 +66,7 @@ func runSolver(ctx context.Context, s solverSpec, script string, timeoutSec int)
 	defer cancel()
 	sh := append([]string{"-c", fmt.Sprintf("ulimit -t %d; exec \"$@\"", timeoutSec), "sh"}, args...)
 	cmd := exec.CommandContext(cctx, "/bin/sh", sh...)
+	cmd.SysProcAttr = &syscall.SysProcAttr{Pdeathsig: syscall.SIGKILL}
 	cmd.Stdin = strings.NewReader(script)
 	var ob bytes.Buffer
 	cmd.Stdout = &ob
